@@ -652,7 +652,47 @@ class Engine(object):
             return args[0]
         if isinstance(args[0], Fraction):
             return int(args[0])
+        x = self.need_finite(args[0], pc, 'int()', node)
+        if is_int_sorted(x):
+            return x
+        if is_real_sorted(x) and self.mode == 'B':
+            # truncation towards zero of a symbolic real: fresh integer with its defining inequalities, then made concrete
+            k = fresh('trunc', I)
+            kr = z3.ToReal(k)
+            pc.assume(z3.If(x >= 0, z3.And(kr <= x, x < kr + 1), z3.And(kr >= x, x > kr - 1)))
+            vals = self.concretize(k, pc, limit=16)
+            if len(vals) == 1:
+                return vals[0]
+            raise ForkRequest(k == vals[0])
         raise Unsupported("int() of symbolic")
+
+    def bi_np_linspace(self, args, kw, st, pc, node):
+        """assumed numpy contract: num equally spaced points from start to stop inclusive"""
+        a, b, num = args[0], args[1], args[2] if len(args) > 2 else kw.get('num', 50)
+        if not isinstance(num, int):
+            raise Unsupported("linspace with symbolic count")
+        if num == 1:
+            vals = [a]
+        else:
+            vals = [arith('+', a, arith('/', arith('*', arith('-', b, a), k), num - 1)) for k in range(num)]
+            vals[-1] = b
+        return st.alloc(vals, num, "linspace@%d" % node.lineno)
+
+    def bi_np_histogram(self, args, kw, st, pc, node):
+        """assumed numpy contract: counts per bin [e_k, e_k+1), the LAST bin closed on the right; returns (counts, edges)"""
+        vals = self._elems(args[0], st, pc)
+        bins = args[1] if len(args) > 1 else kw.get('bins')
+        edges = self._elems(bins, st, pc)
+        m = len(edges) - 1
+        counts = []
+        for k in range(m):
+            c = 0
+            for v in vals:
+                v_ = split(v)[0]
+                inside = band(cmp('<=', edges[k], v_), cmp('<', v_, edges[k + 1]) if k < m - 1 else cmp('<=', v_, edges[k + 1]))
+                c = arith('+', c, ite(inside, 1, 0))
+            counts.append(c)
+        return (st.alloc(counts, m, "histogram@%d" % node.lineno), st.alloc(list(edges), m + 1, "histogram-edges@%d" % node.lineno))
 
     def bi_range(self, args, kw, st, pc, node):
         if all(isinstance(a, int) for a in args):
@@ -784,7 +824,9 @@ class Engine(object):
         a, v = args[0], args[1]
         side = kw.get('side', args[2] if len(args) > 2 else 'left')
         if isinstance(v, (ArrV, LazyArr, list, tuple)):
-            raise Unsupported("searchsorted with a sequence of values")
+            vs = self._elems(v, st, pc)
+            out = [self.bi_np_searchsorted([a, x] + list(args[2:]), kw, st, pc, node) for x in vs]
+            return st.alloc(out, len(out), "searchsorted@%d" % node.lineno)
         v = self.need_finite(v, pc, 'searchsorted', node)
         A = st.acc(a)
         n = a.n
